@@ -412,6 +412,11 @@ class Extractor:
             return self._n(s.value, local)
         if isinstance(s, ast.Delete):
             return "del " + ", ".join(self._n(t, local) for t in s.targets)
+        if isinstance(s, ast.Raise):          # the class matters, the wording of the message does not
+            e = s.exc.func if isinstance(s.exc, ast.Call) else s.exc
+            return "raise %s" % (src(e) if e is not None else "")
+        if isinstance(s, ast.Pass):
+            return "pass"
         return " ".join(src(s).split())
 
     def _definition(self, name):
@@ -428,21 +433,24 @@ class Extractor:
         return self._defs[name]
 
     def _expand(self, text):
-        """replace the locals that are built up by several statements (not inlinable) by the text of their definition"""
-        for name in sorted(self.opaque):
-            if re.search(r"(?<![\w.])%s\b" % re.escape(name), text):
-                d = self._definition(name)
-                text = re.sub(r"(?<![\w.])%s\b" % re.escape(name), lambda m: d, text)
-        # other built-up locals mentioned inside a definition: placeholders in order of appearance (their names do not matter)
-        rest = [n for n in self.opaque if re.search(r"(?<![\w.])%s\b" % re.escape(n), text)]
-        if rest:
+        """replace the locals that are built up by several statements (not inlinable) by the text of their definition; inside a
+        definition the other built-up locals are placeholders _v0, _v1, .. (numbered by appearance), so no local name survives"""
+        names = sorted(self.opaque, key=len, reverse=True)
+        if not names:
+            return text
+        pat = re.compile(r"(?<![\w.'\"])(%s)\b" % "|".join(re.escape(n) for n in names))
+        if not pat.search(text):
+            return text
+
+        def definition(m):
+            d = self._definition(m.group(1))
             order = []
-            for m in re.finditer(r"(?<![\w.])(%s)\b" % "|".join(re.escape(n) for n in rest), text):
-                if m.group(1) not in order:
-                    order.append(m.group(1))
+            for x in pat.finditer(d):
+                if x.group(1) not in order:
+                    order.append(x.group(1))
             ren = {n: "_v%d" % i for i, n in enumerate(order)}
-            text = re.sub(r"(?<![\w.])(%s)\b" % "|".join(re.escape(n) for n in rest), lambda m: ren[m.group(1)], text)
-        return text
+            return pat.sub(lambda x: ren[x.group(1)], d)
+        return pat.sub(definition, text)
 
     def run(self, stmts=None):
         self._defs = {}
